@@ -103,6 +103,7 @@ type dbHarness struct {
 
 	// I/O fault injection (C43)
 	faultsArmed   bool
+	dynFaults     []*simfs.Fault // one-shot rules armed by "armfault" ops
 	faultsStopped bool
 	rotInc        *simrt.Inc // side incarnation reading a damaged copy (C27)
 	delays        int
@@ -580,6 +581,13 @@ func (h *dbHarness) exec(op *DBOp) {
 		}
 	case "clearfaults":
 		h.stopFaults()
+	case "armfault":
+		h.execArmFault(op)
+	case "aflush":
+		// an asynchronous flush: the following operations overlap it
+		if _, err := h.db.AsyncFlush(); err != nil {
+			h.opErr("asyncflush", err)
+		}
 	case "crashat":
 		// arm a main-line crash N disk mutations from now
 		h.disk.CrashAt = h.disk.LogLen() + op.N
